@@ -118,3 +118,97 @@ theorem mul_le_of_le_div {n : Nat} {count M : Int} (hn : 0 < n)
     _ ≤ M := Int.mul_ediv_self_le (Int.ne_of_gt hn')
 
 end UgoVerif.Proofs.Builtins
+
+namespace UgoVerif.Proofs.Builtins
+open UgoVerif UgoVerif.Go UgoVerif.Model.Builtins
+
+/-- the arithmetic of `pad`: with `0 < diff ≤ 2^31` and a pad string of length `0 < L ≤ B`,
+    `r = (diff-L)/L + 2` copies are positive, at most `2B + 2^32` bytes, and at least `diff` bytes -/
+theorem pad_arith (diff L q : Int) (hd0 : 0 < diff) (hL0 : 0 < L) (hq : q = Int.tdiv (diff - L) L) :
+    0 < q + 2 ∧ q + 2 ≤ diff + 2 ∧ L * (q + 2) ≤ diff + 2 * L ∧ diff < L * (q + 2) + 1 := by
+  by_cases hneg : diff - L < 0
+  · have hx0 : 0 ≤ L - diff := by omega
+    have hxl : L - diff < L := by omega
+    have h1 : Int.tdiv (diff - L) L = 0 := by
+      have : diff - L = -(L - diff) := by omega
+      rw [this, Int.neg_tdiv, Int.tdiv_eq_ediv_of_nonneg hx0, Int.ediv_eq_zero_of_lt hx0 hxl]; rfl
+    rw [h1] at hq; subst hq
+    refine ⟨by omega, by omega, by omega, by omega⟩
+  · have hnn : 0 ≤ diff - L := by omega
+    have h1 : Int.tdiv (diff - L) L = (diff - L) / L := Int.tdiv_eq_ediv_of_nonneg hnn
+    have h2 : L * ((diff - L) / L) ≤ diff - L := Int.mul_ediv_self_le (by omega)
+    have h3 : diff - L < L * ((diff - L) / L) + L := Int.lt_mul_ediv_self_add hL0
+    have h4 : 0 ≤ (diff - L) / L := Int.ediv_nonneg hnn (by omega)
+    have h5 : (diff - L) / L ≤ diff - L := by
+      have : (diff - L) / L * 1 ≤ (diff - L) / L * L := Int.mul_le_mul_of_nonneg_left (by omega) h4
+      have h6 : (diff - L) / L * L = L * ((diff - L) / L) := Int.mul_comm _ _
+      omega
+    rw [h1] at hq; subst hq
+    have hm : L * ((diff - L) / L + 2) = L * ((diff - L) / L) + 2 * L := by
+      rw [Int.mul_add, Int.mul_comm L 2]
+    refine ⟨by omega, by omega, by omega, by omega⟩
+
+end UgoVerif.Proofs.Builtins
+
+namespace UgoVerif.Proofs.Builtins
+open UgoVerif UgoVerif.Go UgoVerif.Model.Builtins
+
+theorem libRepeat_len (E : Env) (hM : (E.makeLimit : Int) ≤ maxInt) (s : Bytes) (count : Int)
+    (h0 : 0 ≤ count) (hs : 0 < s.length) (hle : (s.length : Int) * count ≤ E.makeLimit) :
+    ∃ r, libRepeat E s count = .ok r ∧ (r.length : Int) = (s.length : Int) * count := by
+  unfold libRepeat
+  have h1 : ¬ count < 0 := by omega
+  have h2 : ¬ (s.length : Int) * count > maxInt := by omega
+  have h3 : ¬ (s.length : Int) * count > (E.makeLimit : Int) := by omega
+  have h4 : s.isEmpty = false := by
+    cases s with
+    | nil => simp at hs
+    | cons _ _ => rfl
+  simp only [h1, h2, h3, if_false, h4]
+  refine ⟨_, rfl, ?_⟩
+  simp only [Bool.false_eq_true, if_false]
+  rw [length_flatten_replicate]
+  have : ((count.toNat : Nat) : Int) = count := Int.toNat_of_nonneg h0
+  rw [Int.natCast_mul, this, Int.mul_comm]
+
+theorem padCont_no_panic (E : Env) (B : Nat) (hL : 2 * B + 4294967296 ≤ E.makeLimit)
+    (hM : (E.makeLimit : Int) ≤ maxInt) (s : Bytes) (padLen diff : Int) (left : Bool) (padWith : Bytes)
+    (hp0 : 0 ≤ padLen) (hp : padLen ≤ 2147483647) (hd0 : 0 < diff) (hd : diff ≤ 2147483647)
+    (hw0 : 0 < padWith.length) (hw : padWith.length ≤ B) :
+    (padCont E s padLen diff left padWith).isPanic = false := by
+  unfold padCont
+  have hMx : (E.makeLimit : Int) ≤ 9223372036854775807 := by unfold maxInt at hM; exact hM
+  have hwr : wrap64 (diff - padWith.length) = diff - padWith.length :=
+    wrap64_id (by unfold minInt; omega) (by unfold maxInt; omega)
+  rw [hwr]
+  have hdiv : goDiv (diff - padWith.length) padWith.length
+      = .ok (Int.tdiv (diff - padWith.length) padWith.length) := by
+    unfold goDiv
+    have : ¬ ((padWith.length : Int) = 0) := by omega
+    simp only [this, if_false]
+  rw [hdiv]
+  simp only
+  obtain ⟨a1, a2, a3, a4⟩ := pad_arith diff padWith.length _ hd0 (by omega) rfl
+  generalize Int.tdiv (diff - padWith.length) padWith.length = q at *
+  have hr : wrap64 (q + 2) = q + 2 := wrap64_id (by unfold minInt; omega) (by unfold maxInt; omega)
+  rw [hr]
+  have hnle : ¬ q + 2 ≤ 0 := by omega
+  simp only [hnle, if_false]
+  have hgrow : libGrow E padLen = .ok () := by
+    unfold libGrow
+    have h1 : ¬ padLen < 0 := by omega
+    have h2 : ¬ padLen > (E.makeLimit : Int) := by omega
+    simp [h1, h2]
+  rw [hgrow]
+  simp only
+  obtain ⟨rep, hrep, hlen⟩ := libRepeat_len E hM padWith (q + 2) (by omega) hw0 (by omega)
+  rw [hrep]
+  simp only
+  have hsl : sliceTo rep diff = .ok (rep.take diff.toNat) := by
+    unfold sliceTo
+    have : ¬ (diff < 0 ∨ diff > (rep.length : Int)) := by omega
+    simp [this]
+  rw [hsl]
+  rfl
+
+end UgoVerif.Proofs.Builtins
